@@ -2,7 +2,7 @@
 """Exploratory: run every oracle on implementation and model streams and tabulate violations by the
 triggers that preceded them (used to validate the completeness of the trigger table)."""
 import sys, collections
-sys.path.insert(0, '/verif/tools')
+sys.path.insert(0, __import__('os').path.dirname(__import__('os').path.abspath(__file__)))
 import poalib
 
 ops = poalib.parse_ops(sys.argv[1]); impl = poalib.parse_obs(sys.argv[2]); model = poalib.parse_obs(sys.argv[3])
